@@ -270,7 +270,7 @@ func (H) Execute(scAny any, cfg simrt.Config, st *core.Stats) (*simrt.Outcome, *
 		return out, v
 	}
 	if out.Truncated {
-		return out, nil
+		return out, core.NoProgress(out)
 	}
 	if out.Stuck {
 		return out, &core.Violation{Signature: "deadlock", Detail: fmt.Sprint(out.StuckTasks)}
@@ -418,7 +418,7 @@ func execPool(sc *Scenario, cfg simrt.Config, st *core.Stats) (*simrt.Outcome, *
 		return out, v
 	}
 	if out.Truncated {
-		return out, nil
+		return out, core.NoProgress(out)
 	}
 	if out.Stuck {
 		return out, &core.Violation{Signature: "deadlock", Detail: fmt.Sprint(out.StuckTasks)}
